@@ -77,6 +77,22 @@ pub fn oh_with_target(r: &mut Rng, p: &OhParams, ty: &[NL]) -> P {
 /// (f, g) with target type of f = source type of g
 pub fn composable_pair(r: &mut Rng, p: &OhParams) -> (P, P) {
     let f = oh(r, p);
+    if r.chance(1, 25) && !f.t.is_empty() {
+        // second factor = discrete cospan with equal legs and as many ports as nodes, but legs that
+        // are not a bijection (it looks like an identity to a sloppy test and is not one)
+        let ty = f.tgt_type();
+        let n = ty.len();
+        let mut leg: Vec<usize> = (0..n).collect();
+        let mut w = ty.clone();
+        for i in 1..n {
+            if ty[i] == ty[i - 1] && r.chance(1, 2) {
+                leg[i] = leg[i - 1];
+            }
+        }
+        // unreferenced positions stay as isolated nodes carrying the type's label
+        let _ = &mut w;
+        return (f, POh { w, e: vec![], s: leg.clone(), t: leg });
+    }
     let g = oh_with_source(r, p, &f.tgt_type());
     (f, g)
 }
@@ -186,4 +202,23 @@ pub fn corpus_shapes() -> Vec<(&'static str, P)> {
         ("diamond", POh { w: vec![0; 5], e: vec![e(0, &[0], &[1, 2]), e(1, &[1], &[3]), e(2, &[2], &[4]), e(3, &[3, 4], &[])], s: vec![0], t: vec![] }),
         ("unbalanced_depths", POh { w: vec![0; 5], e: vec![e(0, &[0], &[1]), e(1, &[1], &[2]), e(2, &[2], &[3]), e(3, &[0, 3], &[4])], s: vec![0], t: vec![4] }),
     ]
+}
+
+/// Pairs that merge `n = 2^k` points in balanced tournament order (singletons pairwise, then the
+/// pairs pairwise, ...), with random orientation of every pair and a random renumbering of the
+/// points. Builds union-find trees of height k in implementations that link by rank.
+pub fn tournament_pairs(r: &mut Rng, k: u32) -> (usize, Vec<(usize, usize)>) {
+    let n = 1usize << k;
+    let np = r.perm(n);
+    let mut pairs = vec![];
+    for level in 0..k {
+        let stride = 1usize << level;
+        let mut i = 0;
+        while i + stride < n {
+            let (a, b) = (np[i], np[i + stride]);
+            if r.chance(1, 2) { pairs.push((a, b)) } else { pairs.push((b, a)) }
+            i += 2 * stride;
+        }
+    }
+    (n, pairs)
 }
